@@ -8,6 +8,11 @@
 //     (oj/sen: `!=`, alt: `==`: alt's builders take the flag inverted);
 //   - the names in every 8-entry append/value function table (`intAppendFuncs`, `boolValFuncs`, …) in
 //     index order: entry i must be the variant for str (bit 0), omit (bit 1), embedded (bit 2).
+//   - the source facts the deviation flags of `Dev.current` stand for (so that applying or reverting a
+//     fix in /repo without flipping the flag breaks a theorem): whether the `omitempty` case of
+//     buildTagFields assigns to a parameter (leak), the pointer tests of oj's tightSlice/tightMap,
+//     whether alt's reflectMap calls isNil, the guards of registerComposer and recomp on
+//     `c.rtype`, whether getTypeStruct selects structEmptyMap and which flag newFinfo hands to it.
 //
 // It fails loudly on source shapes it cannot read.
 package main
@@ -196,6 +201,213 @@ func rflNormalized(path string) (string, error) {
 	return b.String(), nil
 }
 
+func rflParse(repo, pkg, file string) (*token.FileSet, *ast.File, error) {
+	fset := token.NewFileSet()
+	f, err := parser.ParseFile(fset, filepath.Join(repo, pkg, file), nil, 0)
+	if err != nil {
+		return nil, nil, fmt.Errorf("reflect extractor: %v", err)
+	}
+	return fset, f, nil
+}
+
+// rflTagOmitAssignsParam: in buildTagFields the statement under `case "omitempty":` assigns true to an
+// identifier; is that identifier one of the function's parameters?
+func rflTagOmitAssignsParam(repo, pkg string) (bool, error) {
+	_, f, err := rflParse(repo, pkg, "sinfo.go")
+	if err != nil {
+		return false, err
+	}
+	fd := rflFuncDecl(f, "", "buildTagFields")
+	if fd == nil {
+		return false, fmt.Errorf("reflect extractor: %s/sinfo.go: buildTagFields not found", pkg)
+	}
+	params := map[string]bool{}
+	for _, fl := range fd.Type.Params.List {
+		for _, n := range fl.Names {
+			params[n.Name] = true
+		}
+	}
+	found, isParam := 0, false
+	ast.Inspect(fd.Body, func(n ast.Node) bool {
+		cc, ok := n.(*ast.CaseClause)
+		if !ok || len(cc.List) != 1 {
+			return true
+		}
+		bl, ok := cc.List[0].(*ast.BasicLit)
+		if !ok || bl.Value != `"omitempty"` || len(cc.Body) != 1 {
+			return true
+		}
+		as, ok := cc.Body[0].(*ast.AssignStmt)
+		if !ok || len(as.Lhs) != 1 {
+			return true
+		}
+		id, ok := as.Lhs[0].(*ast.Ident)
+		if !ok {
+			return true
+		}
+		found++
+		isParam = params[id.Name]
+		return true
+	})
+	if found != 1 {
+		return false, fmt.Errorf("reflect extractor: %s.buildTagFields: expected one `case \"omitempty\": x = true`, found %d", pkg, found)
+	}
+	return isParam, nil
+}
+
+// rflIfWithCond returns the text of the first if statement of fd whose condition contains want
+// (condition only when condOnly, else the whole statement).
+func rflIfWithCond(fset *token.FileSet, fd *ast.FuncDecl, want string, condOnly bool) (string, bool) {
+	res, ok := "", false
+	ast.Inspect(fd.Body, func(n ast.Node) bool {
+		if ok {
+			return false
+		}
+		is, isIf := n.(*ast.IfStmt)
+		if !isIf {
+			return true
+		}
+		c := rflExprText(fset, is.Cond)
+		if is.Init != nil {
+			c = rflExprText(fset, is.Init) + "; " + c
+		}
+		if strings.Contains(c, want) {
+			ok = true
+			if condOnly {
+				res = c
+			} else {
+				res = rflExprText(fset, is)
+			}
+			return false
+		}
+		return true
+	})
+	return res, ok
+}
+
+func rflAllIfConds(fset *token.FileSet, fd *ast.FuncDecl, want string) []string {
+	var out []string
+	ast.Inspect(fd.Body, func(n ast.Node) bool {
+		is, isIf := n.(*ast.IfStmt)
+		if !isIf {
+			return true
+		}
+		c := rflExprText(fset, is.Cond)
+		if is.Init != nil {
+			c = rflExprText(fset, is.Init) + "; " + c
+		}
+		if strings.Contains(c, want) {
+			out = append(out, c)
+		}
+		return true
+	})
+	return out
+}
+
+func rflContainsIdent(n ast.Node, name string) bool {
+	has := false
+	ast.Inspect(n, func(x ast.Node) bool {
+		if id, ok := x.(*ast.Ident); ok && id.Name == name {
+			has = true
+		}
+		return !has
+	})
+	return has
+}
+
+func rflSourceFacts(repo string, b *strings.Builder) error {
+	for _, pkg := range []string{"oj", "sen"} {
+		v, err := rflTagOmitAssignsParam(repo, pkg)
+		if err != nil {
+			return err
+		}
+		fmt.Fprintf(b, "/-- %s/sinfo.go buildTagFields: `case \"omitempty\":` assigns to a PARAMETER of the function (the leak) -/\ndef %sTagOmitAssignsParam : Bool := %v\n\n", pkg, pkg, v)
+		fset, f, err := rflParse(repo, pkg, "sinfo.go")
+		if err != nil {
+			return err
+		}
+		_ = fset
+		gts := rflFuncDecl(f, "", "getTypeStruct")
+		if gts == nil {
+			return fmt.Errorf("reflect extractor: %s/sinfo.go: getTypeStruct not found", pkg)
+		}
+		fmt.Fprintf(b, "/-- %s/sinfo.go getTypeStruct looks the plan up in structEmptyMap when its flag is set -/\ndef %sGetTypeStructSelectsMap : Bool := %v\n\n", pkg, pkg, rflContainsIdent(gts.Body, "structEmptyMap"))
+		fs2, ff, err := rflParse(repo, pkg, "finfo.go")
+		if err != nil {
+			return err
+		}
+		nf := rflFuncDecl(ff, "", "newFinfo")
+		if nf == nil {
+			return fmt.Errorf("reflect extractor: %s/finfo.go: newFinfo not found", pkg)
+		}
+		var flags []string
+		ast.Inspect(nf.Body, func(n ast.Node) bool {
+			ce, ok := n.(*ast.CallExpr)
+			if !ok {
+				return true
+			}
+			if id, ok := ce.Fun.(*ast.Ident); ok && id.Name == "getTypeStruct" && len(ce.Args) == 3 {
+				flags = append(flags, rflExprText(fs2, ce.Args[2]))
+			}
+			return true
+		})
+		if len(flags) == 0 {
+			return fmt.Errorf("reflect extractor: %s.newFinfo: no getTypeStruct call", pkg)
+		}
+		fmt.Fprintf(b, "/-- %s/finfo.go newFinfo: the flag handed to getTypeStruct for the nested struct type, per call -/\ndef %sNewFinfoNestFlags : List String := %s\n\n", pkg, pkg, rflLeanList(flags))
+	}
+	// oj tight writers
+	fset, f, err := rflParse(repo, "oj", "tight.go")
+	if err != nil {
+		return err
+	}
+	ts := rflFuncDecl(f, "Writer", "tightSlice")
+	tm := rflFuncDecl(f, "Writer", "tightMap")
+	if ts == nil || tm == nil {
+		return fmt.Errorf("reflect extractor: oj/tight.go: tightSlice/tightMap not found")
+	}
+	c1, ok := rflIfWithCond(fset, ts, "rm.Kind() == reflect.Ptr", true)
+	if !ok {
+		return fmt.Errorf("reflect extractor: oj.tightSlice: pointer test not found")
+	}
+	c2, ok := rflIfWithCond(fset, tm, "rm.Kind() == reflect.Ptr", false)
+	if !ok {
+		return fmt.Errorf("reflect extractor: oj.tightMap: pointer test not found")
+	}
+	fmt.Fprintf(b, "/-- oj/tight.go tightSlice: the condition under which a pointer element is dereferenced -/\ndef ojTightSlicePtrCond : String := %q\n\n", c1)
+	fmt.Fprintf(b, "/-- oj/tight.go tightMap: the statement that dereferences a pointer value -/\ndef ojTightMapPtrStmt : String := %q\n\n", c2)
+	// alt
+	_, fa, err := rflParse(repo, "alt", "decompose.go")
+	if err != nil {
+		return err
+	}
+	rm := rflFuncDecl(fa, "", "reflectMap")
+	if rm == nil {
+		return fmt.Errorf("reflect extractor: alt/decompose.go: reflectMap not found")
+	}
+	fmt.Fprintf(b, "/-- alt/decompose.go reflectMap tests map values with isNil (which is true for nil slices and maps too) -/\ndef altReflectMapUsesIsNil : Bool := %v\n\n", rflContainsIdent(rm.Body, "isNil"))
+	fsr, fr, err := rflParse(repo, "alt", "recomposer.go")
+	if err != nil {
+		return err
+	}
+	rc := rflFuncDecl(fr, "Recomposer", "registerComposer")
+	rp := rflFuncDecl(fr, "Recomposer", "recomp")
+	if rc == nil || rp == nil {
+		return fmt.Errorf("reflect extractor: alt/recomposer.go: registerComposer/recomp not found")
+	}
+	g1, ok := rflIfWithCond(fsr, rc, "c == nil", true)
+	if !ok {
+		return fmt.Errorf("reflect extractor: alt.registerComposer: `c == nil` test not found")
+	}
+	g2 := rflAllIfConds(fsr, rp, "r.composers[rv.Type().Name()]")
+	if len(g2) == 0 {
+		return fmt.Errorf("reflect extractor: alt.recomp: lookup by rv.Type().Name() not found")
+	}
+	fmt.Fprintf(b, "/-- alt/recomposer.go registerComposer: when a new composer is built -/\ndef altRegisterNewCond : String := %q\n\n", g1)
+	fmt.Fprintf(b, "/-- alt/recomposer.go recomp: the lookups of a composer by bare type name -/\ndef altRecompLookups : List String := %s\n\n", rflLeanList(g2))
+	return nil
+}
+
 func extractReflect(repo, out string) ([]string, error) {
 	var b strings.Builder
 	b.WriteString("/- GENERATED by /verif/tools/extract (reflect.go) from oj, sen, alt — do not edit; rewritten on every run. -/\n")
@@ -267,6 +479,9 @@ func extractReflect(repo, out string) ([]string, error) {
 			fmt.Fprintf(&b, "  (%q, %s)%s\n", k, rflLeanList(tabs[k]), sep)
 		}
 		b.WriteString("]\n\n")
+	}
+	if err := rflSourceFacts(repo, &b); err != nil {
+		return nil, err
 	}
 	b.WriteString("end OjgVerif.Gen.Reflect\n")
 	ch, err := writeIfChanged(filepath.Join(out, "Reflect.lean"), b.String())
